@@ -847,7 +847,8 @@ class Distribution(ScalarDistribution):
         v = super()._validate_outcomes()
         # If we survived, then all outcomes have the same class.
         # Now, we just need to make sure that class is a sequence.
-        v &= validate_sequence(self.outcomes[0])
+        if len(self.outcomes) > 0:
+            v &= validate_sequence(self.outcomes[0])
         return v
 
     def coalesce(self, rvs, rv_mode=None, extract=False):
